@@ -5,7 +5,9 @@
           are written) + Eql/RuleEval.v ([run]: ExceptIf/Alternative/Next selection, concluded_before, descriptor).
    Fragment: [Fb prog] = [Gb prog] (the surgery produced the written tree, every node once -- decidable, computed;
              since /repo 4511011 it holds for all 1210 skeletons with <= 4 branches, nesting <= 3) and no next_rule.
-             Outside: one refutation per open defect class (next_rule); the former surgery defects are regressions. *)
+             Outside: programs with next_rule are compared with the faithful model (and with the Spec, except the
+             class [later_ref_next] whose reading the property text does not settle).  All former defects (surgery:
+             C08-a/b/c/f, /repo 4511011; next_rule: C08-d/e, 35fa150; C08-g, 6dfdafd) are regression theorems. *)
 From Coq Require Import List ZArith Bool Arith.
 From Krrood Require Import Eql.RuleSpec Eql.RuleEval Eql.RuleBuild Eql.RulePure Eql.RuleEvalProofs Eql.RuleSpecProofs Eql.RuleProofs.
 Import ListNotations.
@@ -73,18 +75,18 @@ Theorem C08_fixed_surgery :
   (Fb w_alt_ref = true /\ agrees w_alt_ref W8 = true /\ In (1, 1) (model_tags w_alt_ref W8)).
 Proof. exact fixed_surgery. Qed.
 
-(* outside the fragment: one witness per open defect class (the model is the faithful restatement of the code) *)
-(* next_rule: the tree is built as written (Gb holds), the selector drops the additional conclusion *)
-Theorem C08_refuted_next :
-  (Gb w_next = true /\ agrees w_next W8 = false /\ In (1, 1) (rdr w_next W8) /\ ~ In (1, 1) (model_tags w_next W8)) /\
-  (Gb w_alt_next = true /\ agrees w_alt_next W8 = false /\ In (2, 1) (rdr w_alt_next W8) /\ ~ In (2, 1) (model_tags w_alt_next W8)).
-Proof. exact refuted_next. Qed.
+(* regression witnesses of the repaired next_rule defects C08-d, C08-e, C08-g: the model's run is the Spec's answer *)
+Theorem C08_fixed_next :
+  (Gb w_next = true /\ agrees w_next W8 = true /\ In (1, 1) (model_tags w_next W8)) /\
+  (Gb w_alt_next = true /\ agrees w_alt_next W8 = true /\ In (2, 1) (model_tags w_alt_next W8)) /\
+  (Gb w_next_alt = true /\ agrees w_next_alt W8 = true /\ ~ In (2, 0) (model_tags w_next_alt W8)).
+Proof. exact fixed_next. Qed.
 
-(* C08-g: an alternative written after a next_rule fires for elements for which an earlier branch fired *)
-Theorem C08_refuted_next_alt :
-  Gb w_next_alt = true /\ agrees w_next_alt W8 = false /\
-  ~ In (2, 0) (rdr w_next_alt W8) /\ In (2, 0) (model_tags w_next_alt W8).
-Proof. exact refuted_next_alt. Qed.
+(* not a finding: the class whose reading the property text does not settle (kept outside the fragment) *)
+Theorem C08_unsettled_reading :
+  later_ref_next w_unsettled = true /\ Gb w_unsettled = true /\
+  In (3, 1) (rdr w_unsettled W8) /\ ~ In (3, 1) (model_tags w_unsettled W8) /\ In (3, 2) (model_tags w_unsettled W8).
+Proof. exact unsettled_reading. Qed.
 
 Example C08_nonvacuous :
   Fb ex_prog = true /\
@@ -99,5 +101,5 @@ Print Assumptions C08_tree_is_rdr.
 Print Assumptions C08_no_branch_ignored.
 Print Assumptions C08_documented_shapes.
 Print Assumptions C08_fixed_surgery.
-Print Assumptions C08_refuted_next.
-Print Assumptions C08_refuted_next_alt.
+Print Assumptions C08_fixed_next.
+Print Assumptions C08_unsettled_reading.
